@@ -598,6 +598,10 @@ func c03R5(p *core.Program, r *core.Report) {
 			logged := valueReachesCallback(c2.Instr.(ssa.Value), cs.Caller)
 			if a0 && a1 && logged {
 				okFwd = true
+				if g := groupsEventGuard(call, c2.Instr); g != "" {
+					okFwd = false
+					detail = g + ": a membership change of the other kind is made without an event"
+				}
 			} else {
 				detail = fmt.Sprintf("NewContactGroupsChanged(added<-result0=%v, removed<-result1=%v) logged=%v", a0, a1, logged)
 			}
